@@ -146,15 +146,33 @@ func main() {
 	r := ev.Start("C12", "exploration")
 	r.SetExhaustive(true)
 	maxCand := r.Pick(6, 8)
-	r.SetRule(fmt.Sprintf("every candidate list of length 0..%d over the alphabet {nil, a(id1,addrA), b(id2,addrA), c(id2,addrB), d(id3,addrB)} x every immediate in {a,b,c,d,e(id4,addrC)} x maxLen 1..6 x {ByID, ByAddress}; a case is non-trivial when a nil or duplicate is skipped or the list is truncated; distinct by (variant, maxLen, expected length, nil skipped, duplicate skipped, truncated)", maxCand))
+	r.SetRule(fmt.Sprintf("every candidate list of length 0..%d over the alphabet {nil, a(id1,addrA), b(id2,addrA), c(id2,addrB), d(id3,addrB)} x every immediate in {a,b,c,d,e(id4,addrC)} x maxLen 1..6 x {ByID, ByAddress} x 4 embeddings of the symbolic ids / addresses into concrete ones (small ids; ids agreeing in their low 32 / low 16 bits or in all but the top bit; extreme ids 0, 2^48-1, 2^47; addresses that are prefixes or case variants of each other, empty and blank); a case is non-trivial when a nil or duplicate is skipped or the list is truncated; distinct by (variant, maxLen, expected length, nil skipped, duplicate skipped, truncated)", maxCand))
 
-	a := mk("a", 1, "A")
-	b := mk("b", 2, "A")
-	c := mk("c", 2, "B")
-	d := mk("d", 3, "B")
-	e := mk("e", 4, "C")
-	alphabet := []chord.VNode{nil, a, b, c, d}
-	immediates := []*fake{a, b, c, d, e}
+	// the symbolic alphabet is embedded into concrete ids / addresses in several ways: small ids;
+	// ids that agree in their low 32 bits, in their low 16 bits, or everywhere but the top bit; the
+	// extreme ids; addresses that are prefixes / case variants of each other
+	type embedding struct {
+		alphabet   []chord.VNode
+		immediates []*fake
+	}
+	var embs []embedding
+	for _, em := range []struct {
+		ids   [4]uint64
+		addrs [3]string
+	}{
+		{[4]uint64{1, 2, 3, 4}, [3]string{"A", "B", "C"}},
+		{[4]uint64{7, 7 + 1<<32, 7 + 1<<33, 7 + 1<<47}, [3]string{"10.0.0.1:443", "10.0.0.1:4430", "10.0.0.10:443"}},
+		{[4]uint64{0, 1<<48 - 1, 1 << 47, 1 << 16}, [3]string{"gw.example", "GW.example", "gw.example."}},
+		{[4]uint64{0x1234, 0x11234, 0xffff00001234, 0x800000001234}, [3]string{"", " ", "a"}},
+	} {
+		a := mk("a", em.ids[0], em.addrs[0])
+		b := mk("b", em.ids[1], em.addrs[0])
+		c := mk("c", em.ids[1], em.addrs[1])
+		d := mk("d", em.ids[2], em.addrs[1])
+		e := mk("e", em.ids[3], em.addrs[2])
+		embs = append(embs, embedding{[]chord.VNode{nil, a, b, c, d}, []*fake{a, b, c, d, e}})
+	}
+	alphabet := embs[0].alphabet
 	variants := []variant{
 		{"MakeSuccListByID", chord.MakeSuccListByID, func(f *fake) string { return fmt.Sprint(f.ident.GetId()) }},
 		{"MakeSuccListByAddress", chord.MakeSuccListByAddress, func(f *fake) string { return f.ident.GetAddress() }},
@@ -194,28 +212,30 @@ func main() {
 					idx[0] = it.first
 				}
 				for {
-					for i, x := range idx {
-						cands[i] = alphabet[x]
-					}
 					llists++
-					for _, v := range variants {
-						for _, imm := range immediates {
-							for maxLen := 1; maxLen <= 6; maxLen++ {
-								o := check(v, imm, cands, maxLen)
-								ltotal++
-								if o.sig != "" {
-									lsig[o.sig]++
-								}
-								if o.bad != "" {
-									r.Violation(o.bad, "", o.what, o.witness)
-								}
-								if it.n == 5 && maxLen == 3 && o.bad == "" && strings.Contains(o.sig, "len3/niltrue/duptrue") {
-									mu.Lock()
-									if sampled[v.name+imm.name] == 0 && len(sampled) < 6 && idx[0] != idx[1] {
-										sampled[v.name+imm.name]++
-										r.Sample(map[string]any{"fn": v.name, "immediate": imm.name, "candidates": names(cands), "maxLen": maxLen, "result": names(v.fn(imm, cands, maxLen))})
+					for _, em := range embs {
+						for i, x := range idx {
+							cands[i] = em.alphabet[x]
+						}
+						for _, v := range variants {
+							for _, imm := range em.immediates {
+								for maxLen := 1; maxLen <= 6; maxLen++ {
+									o := check(v, imm, cands, maxLen)
+									ltotal++
+									if o.sig != "" {
+										lsig[o.sig]++
 									}
-									mu.Unlock()
+									if o.bad != "" {
+										r.Violation(o.bad, "", o.what, o.witness)
+									}
+									if it.n == 5 && maxLen == 3 && o.bad == "" && strings.Contains(o.sig, "len3/niltrue/duptrue") {
+										mu.Lock()
+										if sampled[v.name+imm.name] == 0 && len(sampled) < 6 && idx[0] != idx[1] {
+											sampled[v.name+imm.name]++
+											r.Sample(map[string]any{"fn": v.name, "immediate": imm.name, "candidates": names(cands), "maxLen": maxLen, "result": names(v.fn(imm, cands, maxLen))})
+										}
+										mu.Unlock()
+									}
 								}
 							}
 						}
